@@ -34,7 +34,7 @@ def canonical(t: str) -> bool:
     post: _
     """
     sid = _typed(t)
-    if sid is None:
+    if sid is None or "?" in sid.string:      # a refused query stays in the string (C04's subject)
         return True
     f = sid.fields
     if sid.string != "/".join(f.values()):
